@@ -94,8 +94,16 @@ func manifestAsBlobCase(t *rapid.T) Case {
 		c.Ops = append(c.Ops, Op{Op: "push", N: id})
 	}
 	c.Ops = append(c.Ops, Op{Op: "tag", N: root, Ref: "latest"})
+	mTagged := rapid.Bool().Draw(t, "mTagged")
+	if mTagged {
+		c.Ops = append(c.Ops, Op{Op: "tag", N: m, Ref: "image"})
+	}
 	for i := rapid.IntRange(1, 2).Draw(t, "gcs"); i > 0; i-- {
 		c.Ops = append(c.Ops, Op{Op: "gc"})
+	}
+	if mTagged && rapid.Bool().Draw(t, "deleteRoot") {
+		// the tagged image stays whatever happens to the manifests that list a copy of it
+		c.Ops = append(c.Ops, Op{Op: "delete", N: root})
 	}
 	c.Ops = append(c.Ops, Op{Op: rapid.SampledFrom([]string{"reopen", "gc"}).Draw(t, "last")})
 	return c
